@@ -49,6 +49,8 @@ pub enum Op {
     Unpin(usize),
     React(usize),
     ReactAfter(usize, bool),
+    /// reactivate_after on guard `.0` with a closure that drops guard `.1` of the same thread
+    ReactAfterDrop(usize, usize),
     Flush(usize),
     /// defer through guard `g` a closure for task `k` whose captured data has the given size class
     Defer { g: usize, k: usize, size: usize },
@@ -65,6 +67,7 @@ impl Op {
             Op::React(_) => "react",
             Op::ReactAfter(_, false) => "react_after",
             Op::ReactAfter(_, true) => "react_after_panic",
+            Op::ReactAfterDrop(_, _) => "react_after_drop",
             Op::Flush(_) => "flush",
             Op::Defer { .. } => "defer",
             Op::Advance(_) => "advance",
@@ -195,6 +198,14 @@ pub fn exec(st: &mut WState, op: Op) -> Res {
                 })
             }));
         }
+        Op::ReactAfterDrop(i, j) => {
+            let other = st.guards[j].take().expect("no guard");
+            let g = st.guards[i].as_mut().expect("no guard");
+            g.reactivate_after(move || {
+                drop(other);
+                emit("inside_reactivate_after", ME.with(|m| m.get()), 0);
+            });
+        }
         Op::Flush(i) => st.guards[i].as_ref().expect("no guard").flush(),
         Op::Defer { g, k, size } => defer_with(st.guards[g].as_ref().expect("no guard"), k, size),
         Op::Advance(i) => {
@@ -322,6 +333,16 @@ impl Ctl {
                     self.ps[t].ug = 0; // a sole guard's critical section ends when the call starts
                 }
             }
+            Op::ReactAfterDrop(_, j) => {
+                // the sibling guard dies inside the call; if only the reactivated guard is left, the critical
+                // section ends here and a new one begins when the call returns
+                self.ps[t].guards[*j] = false;
+                self.ps[t].ug -= 1;
+                self.ps[t].nonsole = self.ps[t].ug > 1;
+                if self.ps[t].ug == 1 {
+                    self.ps[t].ug = 0;
+                }
+            }
             Op::Defer { k, .. } => {
                 self.ts[*k].st = "bag";
                 self.ts[*k].act = self.active_cs();
@@ -417,7 +438,7 @@ impl Ctl {
                             }
                             p.ug += 1;
                         }
-                        Some(Op::React(_)) | Some(Op::ReactAfter(_, _)) => {
+                        Some(Op::React(_)) | Some(Op::ReactAfter(_, _)) | Some(Op::ReactAfterDrop(_, _)) => {
                             let p = &mut self.ps[t];
                             if p.ug == 0 {
                                 p.ug = 1;
@@ -588,10 +609,13 @@ pub fn run_random(ctl: &mut Ctl, rng: &mut Rng, label: &str, max_ops: usize, exi
             cands.push(Op::Flush(g));
             cands.push(Op::Flush(g));
             cands.push(Op::Advance(g));
-            if p.has_handle {
-                // reactivation needs the participant's handle count to be >= 1 (see finding j)
-                cands.push(Op::React(g));
-                cands.push(Op::ReactAfter(g, rng.chance(1, 3)));
+            // (reactivation without the thread's handle is legal since the repair of finding j: the guard keeps
+            // the participant alive)
+            cands.push(Op::React(g));
+            cands.push(Op::ReactAfter(g, rng.chance(1, 3)));
+            if live.len() >= 2 {
+                let h = *live.iter().find(|x| **x != g).unwrap();
+                cands.push(Op::ReactAfterDrop(g, h));
             }
             if next_task < ntasks {
                 cands.push(Op::Defer { g, k: next_task, size: rng.below(NSIZE) });
@@ -772,6 +796,7 @@ pub fn guard_programs(ctl: &mut Ctl, len: usize) -> usize {
                         created += 1;
                     }
                     1 => live.retain(|x| x != i),
+                    c if *c >= 5 => live.retain(|x| *x != (*c - 5) as usize),
                     _ => {}
                 }
             }
@@ -785,6 +810,14 @@ pub fn guard_programs(ctl: &mut Ctl, len: usize) -> usize {
                     let mut q = p.clone();
                     q.push((c, g));
                     next.push(q);
+                }
+                // reactivate_after(g) whose closure drops the sibling guard h (encoded as 5 + h)
+                for &h in &live {
+                    if h != g {
+                        let mut q = p.clone();
+                        q.push((5 + h as u8, g));
+                        next.push(q);
+                    }
                 }
             }
         }
@@ -800,7 +833,8 @@ pub fn guard_programs(ctl: &mut Ctl, len: usize) -> usize {
                 1 => ctl.run(0, Op::Unpin(*i)),
                 2 => ctl.run(0, Op::React(*i)),
                 3 => ctl.run(0, Op::ReactAfter(*i, false)),
-                _ => ctl.run(0, Op::ReactAfter(*i, true)),
+                4 => ctl.run(0, Op::ReactAfter(*i, true)),
+                c => ctl.run(0, Op::ReactAfterDrop(*i, (*c - 5) as usize)),
             }
             cycle(ctl, 1); // the observer tries to advance the epoch after every call
         }
@@ -906,6 +940,48 @@ pub fn stalled_scan(ctl: &mut Ctl, pause_at_load: usize) {
     ctl.finisher(6);
 }
 
+/// Two collectors race for an expired bag at the head of the global queue while the bag behind it is
+/// fresh (deferred inside a critical section that is still active).  The loser of the race must look
+/// at the new head again: taking it unconditionally runs a deferred function too early.
+/// Needs 3 threads: t0 reads, t1 and t2 collect.  `stop_at` is where the first collector is preempted.
+pub fn two_collectors(ctl: &mut Ctl, stop_at: u32, advance_between: bool) {
+    ctl.reset(&format!("dir:two_collectors:{}:{}", stop_at, advance_between), 2, vec![vec![], vec![]]);
+    if ctl.nt() < 3 {
+        return;
+    }
+    ctl.run(1, Op::Pin);
+    let g = ctl.ps[1].guards.len() - 1;
+    ctl.run(1, Op::Defer { g, k: 0, size: 0 });
+    ctl.run(1, Op::Flush(g)); // bag 0, sealed now
+    ctl.run(1, Op::Unpin(g)); // its collection finds nothing expired
+    for _ in 0..3 {
+        // advance without collecting, so that bag 0 stays where it is
+        ctl.run(1, Op::Pin);
+        let g = ctl.ps[1].guards.len() - 1;
+        ctl.run(1, Op::Advance(g));
+        ctl.run(1, Op::Unpin(g));
+    }
+    ctl.run(0, Op::Pin); // the reader
+    ctl.run(2, Op::Pin);
+    let g2 = ctl.ps[2].guards.len() - 1;
+    ctl.run(2, Op::Defer { g: g2, k: 1, size: 0 });
+    ctl.run(2, Op::Flush(g2)); // bag 1, fresh, behind bag 0
+    verif::set_class_mask(site::CLASS_EBR | site::CLASS_QUEUE);
+    ctl.start(2, Op::Collect(g2));
+    ctl.run_to(2, stop_at); // has seen bag 0 expired, is about to take it
+    ctl.run(1, Op::Pin);
+    let g1 = ctl.ps[1].guards.len() - 1;
+    ctl.run(1, Op::Collect(g1)); // takes bag 0 and stops at bag 1
+    if advance_between {
+        ctl.run(1, Op::Advance(g1));
+    }
+    ctl.finish(2); // loses the race for bag 0
+    verif::set_class_mask(site::CLASS_EBR);
+    ctl.run(1, Op::Unpin(g1));
+    ctl.run(2, Op::Unpin(g2));
+    ctl.finisher(10);
+}
+
 pub fn run_family(ctl: &mut Ctl, fam: &str) -> usize {
     let mut n = 0;
     let all = fam == "all";
@@ -920,6 +996,14 @@ pub fn run_family(ctl: &mut Ctl, fam: &str) -> usize {
             react_inner(ctl, r, false);
             react_inner(ctl, r, true);
             n += 2;
+        }
+    }
+    if all || fam == "c13" || fam == "c17" {
+        for at in [site::Q_POP_NEXT_LOAD, site::Q_POP_HEAD_CAS] {
+            for ab in [false, true] {
+                two_collectors(ctl, at, ab);
+                n += 1;
+            }
         }
     }
     if all || fam == "c13" || fam == "c14" {
